@@ -466,7 +466,8 @@ def broadcast_model(v, tier, wd, jobs=None, out=None):
 
 def c04_order(v, tier, wd, rng):
     """C04(b): no reveal before every commitment of the round was received -- invariant of MC_Sched over all
-    interleavings, and Mon_C04b over the posted/completed operation traces of real runs under adversarial schedulers."""
+    interleavings, and Mon_C04b over the posted/completed operation traces of real runs under adversarial schedulers
+    (Mon_C04b also holds the one challenge-after-data clause that is a plain message order: KOS seed after the matrix)."""
     from . import engine
     q = tier == "quick"
     states = 0
@@ -486,7 +487,9 @@ def c04_order(v, tier, wd, rng):
     res = vlib.tlc_trace("Mon_C04b", vlib.MON_CFG, out, wd, name="mon4b")
     jb = {j["id"]: j for j in jobs}
     for x in res.get("viol", []):
-        v.violation("C04: " + x["what"].split(" number")[0] + " before all commitments were received",
+        key = (x["what"].split(" number")[0] + (" sent before the data it tests was received" if "tests" in x["what"]
+                                                   else " before all commitments were received"))
+        v.violation("C04: " + key,
                     {"kind": "engine-job", "job": jb[x["run"]], "party": x["p"]}, f"run {x['run']}: party {x['p']}: {x['what']}")
     # C04(c): challenges vs. the data under check, on honest runs with several aBit calls
     cjobs = []
